@@ -78,9 +78,18 @@ fn gen_go_for_session(rng: &mut Rng, white_to_move: bool, max_depth: u8) -> GoSp
     match rng.weighted(&[50, 30, 10, 10]) {
         0 => gen_depth_go(rng, max_depth),
         1 => GoSpec::infinite(),
-        2 => GoSpec::movetime(rng.range(0, 40)),
+        2 => {
+            let mut g = GoSpec::movetime(rng.range(0, 40));
+            if rng.chance(1, 3) {
+                g.depth = Some(rng.range(1, 3) as u8);
+            }
+            g
+        }
         _ => {
             let mut g = gen_clock_go(rng, white_to_move);
+            if rng.chance(1, 3) {
+                g.depth = Some(rng.range(1, 3) as u8);
+            }
             // keep timed searches short in simulated time: they run to their limit
             for t in [&mut g.wtime, &mut g.btime] {
                 if let Some(v) = t {
@@ -499,7 +508,12 @@ fn gen_limit_b(rng: &mut Rng, white_to_move: bool, poll_interval: Option<u64>, t
         1 => {
             // movetime: expires after at most ~150 k nodes of simulated work
             let max_ms = (150_000u128 * tau_ps as u128 / 1_000_000_000).max(1) as u64;
-            (GoSpec::movetime(rng.range(0, max_ms)), None, 0)
+            let mut g = GoSpec::movetime(rng.range(0, max_ms));
+            // a depth cap on top of the time limit (GUIs configured with both send both)
+            if rng.chance(1, 3) {
+                g.depth = Some(rng.range(1, 4) as u8);
+            }
+            (g, None, 0)
         }
         2 => {
             let mut g = gen_clock_go(rng, white_to_move);
@@ -510,6 +524,9 @@ fn gen_limit_b(rng: &mut Rng, white_to_move: bool, poll_interval: Option<u64>, t
                 }
             }
             let overhead = if rng.chance(1, 3) { rng.range(0, 50) } else { 0 };
+            if rng.chance(1, 3) {
+                g.depth = Some(rng.range(1, 4) as u8);
+            }
             (g, None, overhead)
         }
         _ => {
@@ -567,6 +584,16 @@ pub fn gen_c04(ctx: &Ctx, run: u64) -> ScenarioB {
                 if rng.chance(10, 100) {
                     st.reset = true;
                 }
+                // sometimes the "twin" of the previous position: same placement and side to move,
+                // fewer castling rights (positions that differ only in their rights share the tables)
+                if rng.chance(8, 100) {
+                    if let Some(prev) = steps.last() {
+                        if let Some(twin) = twin_with_fewer_rights(prev, &mut rng) {
+                            st.fen = twin;
+                            st.moves.clear();
+                        }
+                    }
+                }
                 steps.push(st);
             }
         }
@@ -608,7 +635,19 @@ pub fn gen_c04(ctx: &Ctx, run: u64) -> ScenarioB {
             }
         }
     }
-    ScenarioB { initial_hash_mb, poll_interval, tau_ps, steps }
+    ScenarioB { initial_hash_mb, poll_interval, tau_ps, clock_read_step_ns: gen_read_step(&mut rng), steps }
+}
+
+fn twin_with_fewer_rights(prev: &SearchStep, rng: &mut Rng) -> Option<String> {
+    let g = super::oracle::build_position(Some(&prev.fen), &prev.moves).ok()?;
+    let fen = g.to_fen();
+    let mut f: Vec<String> = fen.split_whitespace().map(|s| s.to_string()).collect();
+    if f.len() < 4 || f[2] == "-" {
+        return None;
+    }
+    let kept: String = f[2].chars().filter(|_| rng.chance(1, 2)).collect();
+    f[2] = if kept.is_empty() { "-".to_string() } else { kept };
+    Some(f.join(" "))
 }
 
 pub fn sample_b(sc: &ScenarioB, out: &OutcomeB) -> serde_json::Value {
@@ -692,7 +731,7 @@ pub fn gen_c08(ctx: &Ctx, run: u64) -> ScenarioB {
         (g, s)
     };
     steps.push(SearchStep { fen: fen_s, moves, go, move_overhead: 0, stop_at_poll, resize_mb: None, reset: false, clock_events: vec![] });
-    ScenarioB { initial_hash_mb, poll_interval, tau_ps, steps }
+    ScenarioB { initial_hash_mb, poll_interval, tau_ps, clock_read_step_ns: gen_read_step(&mut rng), steps }
 }
 
 fn playout_from(fen: &str, moves: &[String], plies: usize, rng: &mut Rng) -> Vec<String> {
@@ -847,7 +886,7 @@ pub fn gen_c09(ctx: &Ctx, run: u64) -> C09Plan {
     follow.stop_at_poll = None;
     follow.clock_events.clear();
     steps.push(follow);
-    C09Plan { base: ScenarioB { initial_hash_mb, poll_interval, tau_ps, steps }, target, via_clock }
+    C09Plan { base: ScenarioB { initial_hash_mb, poll_interval, tau_ps, clock_read_step_ns: gen_read_step(&mut rng), steps }, target, via_clock }
 }
 
 /// The scenario with the cancellation placed at poll k of the target search.
